@@ -8,7 +8,7 @@ for d in seeded/${1}*/; do
   id=$(basename $d); prop=$(python3 -c "import json;print(json.load(open('$d/meta.json'))['property'])")
   extra=""
   case $id in C12-B-C12b) extra="C07";; esac
-  if ! git -C /repo apply $d/patch.diff 2>/dev/null; then echo "$id: patch no longer applies"; continue; fi
+  if ! git -C /repo apply /verif/$d/patch.diff 2>/dev/null; then echo "$id: patch no longer applies"; continue; fi
   hit=0
   for p in $prop $extra; do ./check $p 2>&1 | grep -q "^VIOLATION" && hit=1; done
   git -C /repo checkout -- .
